@@ -72,13 +72,13 @@ def build_items(r, thorough):
     for sig in small:                                # exhaustive: <=2 of each kind x <=3 positional x <=2 keywords
       req.append((sig, "func", pick_shapes(r, sig, "func", 3, 2, None)))
     for v in g.VARIANTS[1:]:
-      for sig in r.sample(small, 150):
+      for sig in r.sample(small, 60):
         req.append((sig, v, pick_shapes(r, sig, v, 3, 2, None)))
     big = g.enum_sigs(3)
     for n in range(7000):                            # <=3 of each kind x <=5 positional x <=3 keywords, sampled
       sig = r.choice(big)
       v = g.VARIANTS[n % len(g.VARIANTS)] if n % 2 else "func"
-      opt.append((sig, v, pick_shapes(r, sig, v, 5, 3, 50)))
+      (req if n < 300 else opt).append((sig, v, pick_shapes(r, sig, v, 5, 3, 50)))
   else:
     hot = [s for s in small if s.P and s.kw]
     for sig in r.sample(hot, 30) + r.sample(small, 90):
@@ -131,6 +131,22 @@ def in_known_class(sig, variant, shape):
   return e.kw and any(k in e.P for k in shape[1])
 
 
+def shows_known_defect(sig, variant, shape, py):
+  """The listed finding, recognised on pytype's own output: the call is accepted and a positional-only
+  parameter holds the keyword argument of the same name (which CPython would put into **kwargs)."""
+  if not in_known_class(sig, variant, shape):
+    return False
+  e = g.effective(sig, variant)
+  if py == "O:!self-rebound":
+    return "self" in e.P and "self" in shape[1]
+  if not py.startswith("O:"):
+    return False
+  vals = py[2:].split(",")
+  names = g.all_names(e)
+  return len(vals) == len(names) and any(
+      n in e.P and n in shape[1] and v == "K%d" % g.ID[n] for n, v in zip(names, vals))
+
+
 def kind(s):
   if s.startswith("E:"):
     return s.split(":")[1]
@@ -159,7 +175,9 @@ def shrink(sig, variant, shape, keep_class, budget_s=20.0):
   deadline = time.time() + budget_s
   def ok(c):
     try:
-      return in_known_class(*c) == keep_class and oracle_bad(*c)
+      real, py = observe_one(*c)
+      return (not py.startswith("X:") and g.outcome_only(real) != g.outcome_only(py)
+              and shows_known_defect(c[0], c[1], c[2], py) == keep_class)
     except Exception:   # pylint: disable=broad-except
       return False
   cur = (sig, variant, shape)
@@ -215,15 +233,17 @@ def replay_obj(sig, variant, shape, real, py):
 
 def run(res):
   thorough = res.tier == "thorough"
-  res.rule = ("every def with <=2 (thorough: <=3) parameters of each kind (positional-only, positional-or-keyword, "
-              "keyword-only; every legal placement of defaults; with/without *args and **kwargs) x call shapes with "
-              "<=3 (thorough <=5) positional arguments and <=2 (thorough <=3) keywords drawn from the parameter names "
-              "(incl. self/cls, the *args/**kwargs names) and one foreign name; quick keeps every shape with <=1 keyword "
-              "and a seeded sample of the others, thorough is exhaustive for plain functions; lambdas, methods, "
-              "classmethods, staticmethods and __init__ on a seeded sample of the signatures.  Every argument and default "
-              "is an instance of its own marker class, so the parameter->argument mapping is observable as the revealed "
-              "type of the returned parameter tuple.  A case is non-trivial if the def has a parameter and the call an "
-              "argument; distinct by (variant, def, call).")
+  res.rule = ("defs: every legal def with <=2 (larger sample: <=3) parameters of each kind (positional-only, "
+              "positional-or-keyword, keyword-only), every legal placement of defaults, with/without *args and **kwargs; "
+              "calls: <=3 (larger: <=5) positional arguments and <=2 (larger: <=3) keywords drawn from the parameter names "
+              "(incl. self/cls and the *args/**kwargs names) and one foreign name.  quick: a seeded stratified sample "
+              "(120 function defs, 30 of them with positional-only parameters and **kwargs; 16 defs for each of lambda / "
+              "method / classmethod / staticmethod / __init__; 8 larger defs; every shape with <=1 keyword plus a sample "
+              "of the others), more as long as the time budget lasts.  thorough: all 756 small defs x all shapes for plain "
+              "functions, 60 defs x all shapes for each other variant, 300 larger defs x ~110 shapes, more as time allows.  "
+              "Every argument and default is an instance of its own marker class, so the parameter->argument mapping is "
+              "observable as the revealed type of the returned parameter tuple, one call per line.  A case is non-trivial if "
+              "the def has a parameter and the call an argument; distinct by (variant, def, call).")
   res.assumptions = [
       "call sites without * / ** splats, every argument visible at the call (has_visible_namedarg = True)",
       "unannotated parameters (match_args is skipped; annotated functions re-derive callargs from annotations)",
@@ -333,7 +353,7 @@ def run(res):
                                "%s: model %s, pytype %s" % (describe(sig, variant, sh), mpyf, py))
         # (c) the property itself, on the implementations only
         if g.outcome_only(real) != g.outcome_only(py):
-          if known_cls:
+          if shows_known_defect(sig, variant, sh, py):
             oracle_known.append((sig, variant, sh, real, py))
           else:
             fp = "binding-differs:cpython-%s/pytype-%s" % (kind(real), kind(py))
